@@ -79,8 +79,9 @@ func (e *env[E, P, D, T]) sizes() []sizeSpec {
 		if th {
 			add(12, true)
 			add(14, true)
-			add(16, true)
-			add(17, true)
+			if gomaxprocs > 1 {
+				add(16, true)
+			}
 		}
 	case "race":
 		for _, lg := range []int{1, 3, 5, 6, 8, 9, 11} {
